@@ -486,6 +486,12 @@ func genModPath(r *Rng) string {
 func init() {
 	register(&Property{ID: "C03", Streams: []*Stream{
 		{
+			Name: "generated-files", Quick: 300, Thorough: 3000, New: func() Case { return &importsCase{} },
+			Gen:      func(r *Rng, i int) Case { return &importsCase{fmtCase: *genSkipFmtCase(r)} },
+			BatchRun: importsBatch, ShrinkBudget: 40, MaxShrinks: 6,
+			Rule: "whole files written by the real Execute: one package, 1–3 types each rendering 1–6 snippets (references through PkgExpose to 12 std and module-local packages and to the package's own type among them), about half of the types returning ErrSkip after they rendered; oracle on the written file: the import block lists exactly the packages the body references, under the names the body uses, the package's own type unqualified; the file is also compared with the model's assembled source run through the same formatting pipeline",
+		},
+		{
 			Name: "paths", Quick: 30000, Thorough: 300000,
 			New: func() Case { return &trackCase{} },
 			Gen: func(r *Rng, i int) Case {
